@@ -191,7 +191,7 @@ fn execute_fsm_pipe_impl(fsm: &FsmImplementation, state: &mut Value, call_env: &
           if matched {
             let previous_state = summarize_value(state);
             let out = apply_transitions(transitions, state, &mut arm_env, p)?;
-            *call_env = arm_env;
+            // (bindings of a taken arm do not outlive it)
             if let Some(value) = out {
               trace_println!(
                 p,
@@ -276,7 +276,7 @@ fn execute_fsm_pipe_impl(fsm: &FsmImplementation, state: &mut Value, call_env: &
             }
             let previous_state = summarize_value(state);
             let out = apply_transitions(&guard.transitions, state, &mut arm_env, p)?;
-            *call_env = arm_env;
+            // (bindings of a taken arm do not outlive it)
             if let Some(value) = out {
               trace_println!(
                 p,
